@@ -76,6 +76,33 @@ def single_docs(svg_text, ids):
     return out
 
 
+NOT_RENDERED = {'defs', 'marker', 'pattern', 'clipPath', 'mask', 'symbol', 'linearGradient', 'radialGradient', 'filter'}
+
+
+def source_ids(text):
+    """-> (direct, indirect): ids of elements rendered where they stand / ids of elements below defs, marker, pattern, clipPath,
+    mask, symbol, ... (those may only be reached through a reference: their copies carry no id)"""
+    direct, indirect = {}, {}
+    stack = []
+    for m in re.finditer(r"<!--.*?-->|<!\[CDATA\[.*?\]\]>|<\?.*?\?>|<!DOCTYPE[^\[>]*(?:\[.*?\])?\s*>|</[^>]*>|<((?:[\w.-]+:)?[\w.-]+)((?:\"[^\"]*\"|'[^']*'|[^>\"'])*)>",
+                         text, re.S):
+        t = m.group(0)
+        if m.group(1) is None:
+            if t.startswith('</') and stack:
+                stack.pop()
+            continue
+        name = m.group(1).split(':')[-1]
+        attrs = m.group(2)
+        im = re.search(r"(?:^|\s)id\s*=\s*(?:\"([^\"]*)\"|'([^']*)')", attrs)
+        if im:
+            i = im.group(1) if im.group(1) is not None else im.group(2)
+            tgt = indirect if (any(s in NOT_RENDERED for s in stack) or name in NOT_RENDERED) else direct
+            tgt[i] = tgt.get(i, 0) + 1
+        if not attrs.rstrip().endswith('/'):
+            stack.append(name)
+    return direct, indirect
+
+
 def hexdoc(text):
     return 'hex:' + text.encode('utf-8').hex()
 
@@ -104,6 +131,27 @@ def gen_docs(rng, n):
                     '<g id="g1" transform="%s"><g id="g2" transform="%s" %s><rect id="r1" x="10" y="10" width="40" height="30" fill="green" stroke="navy" stroke-width="4"/>'
                     '<circle id="c1" cx="60" cy="50" r="18" fill="orange"/></g><path id="l1" d="M 5 80 L 90 80" stroke="red" stroke-width="6"/>'
                     '<path id="l2" d="M 5 90 L 90 90" fill="none"/></g></svg>' % (NS, t1, t2, deco))
+    for i in range(max(6, n // 5)):
+        inner = rng.choice(['<path id="i%dp" d="M 0 0 L 8 4 L 0 8 Z" fill="red"/>',
+                            '<g id="i%dg"><rect id="i%dr" width="6" height="6" fill="blue"/></g>',
+                            '<use id="i%du" xlink:href="#shape%d"/>',
+                            '<g id="i%dg"><use id="i%du" xlink:href="#shape%d" x="1"/><circle id="i%dc" cx="4" cy="4" r="2"/></g>',
+                            '<text id="i%dt" x="0" y="7" font-size="7" font-family="Noto Sans">a</text>',
+                            '<svg id="i%ds" width="8" height="8"><rect id="i%dq" width="8" height="8" fill="green"/></svg>'])
+        inner = re.sub(r"%d", str(i), inner)
+        docs.append('<svg %s width="200" height="200"><defs><circle id="shape%d" cx="4" cy="4" r="3" fill="orange"/>'
+                    '<marker id="mk%d" markerWidth="8" markerHeight="8" refX="4" refY="4" orient="auto">%s</marker>'
+                    '<pattern id="pt%d" width="10" height="10" patternUnits="userSpaceOnUse">%s</pattern>'
+                    '<clipPath id="cp%d"><rect id="cpr%d" x="20" y="20" width="120" height="120"/><use id="cpu%d" xlink:href="#shape%d"/></clipPath>'
+                    '<mask id="ms%d"><g id="msg%d"><rect id="msr%d" x="0" y="0" width="200" height="200" fill="white"/></g></mask>'
+                    '<symbol id="sy%d" viewBox="0 0 8 8">%s</symbol></defs>'
+                    '<path id="line%d" d="M 20 20 L 100 40 L 60 120 L 150 150" fill="none" stroke="black" stroke-width="3" '
+                    'marker-start="url(#mk%d)" marker-mid="url(#mk%d)" marker-end="url(#mk%d)"/>'
+                    '<rect id="filled%d" x="100" y="10" width="80" height="60" fill="url(#pt%d)" clip-path="url(#cp%d)" mask="url(#ms%d)"/>'
+                    '<use id="inst%d" xlink:href="#sy%d" x="10" y="130" width="40" height="40"/><use id="inst%db" xlink:href="#sy%d" x="60" y="130" width="40" height="40"/>'
+                    '<g id="top%d" clip-path="url(#cp%d)"><circle id="disc%d" cx="60" cy="60" r="30" fill="teal"/></g></svg>'
+                    % ((NS, i, i, inner.replace('id="i', 'id="m'), i, inner.replace('id="i', 'id="p'), i, i, i, i, i, i, i, i,
+                        inner.replace('id="i', 'id="s'), i, i, i, i, i, i, i, i, i, i, i, i, i, i, i)))
     return docs
 
 
@@ -127,7 +175,7 @@ def run(ctx):
         return
 
     files = vlib.corpus_files()
-    wit = [os.path.join(vlib.VERIF, 'corpus', 'witness', f) for f in ('F19.svg', 'F14.svg', 'C19-filter-edge.svg')]
+    wit = [os.path.join(vlib.VERIF, 'corpus', 'witness', f) for f in ('F19.svg', 'F14.svg', 'C19-filter-edge.svg', 'C12-nested-svg-transform.svg', 'C12-leaf-export-crop.svg')]
     wit = [w for w in wit if os.path.exists(w)]
     sample = list(files) if not quick else rng.sample(files, 350)
     must = [f for f in files if re.search(r"structure/(use|symbol|svg|g)/|filters/filter/|masking/(mask|clipPath)/|structure/transform/", f)]
@@ -156,6 +204,7 @@ def run(ctx):
     # ------------------------------------------------------------------ K node-by-id
     payloads = []
     idx = []
+    srcinfo = {}
     for k, ((d, name, o), r) in enumerate(zip(docs, infos)):
         if r is None:
             continue
@@ -163,11 +212,17 @@ def run(ctx):
         # ids of the source that are not renderable nodes (definitions, ids dropped inside use), plus made-up ones
         src_ids = sorted(set(re.findall(r'\bid="([^"]+)"', src)))[:40]
         extra = [i for i in src_ids if ',' not in i and '\t' not in i] + ['vf_absent', 'ID', ' ', 'rect1 ']
-        payloads.append("%s\t%s\t%s" % (o, d, ','.join(extra)))
+        direct, indirect = source_ids(src) if '<!ENTITY' not in src else ({}, {})
+        forb = [i for i in indirect if i not in direct and ',' not in i and '\t' not in i and i]
+        srcinfo[k] = (direct, indirect)
+        payloads.append("%s\t%s\t%s\t%s" % (o, d, ','.join(extra), ','.join(forb)))
         idx.append(k)
     nouts = ctx.rvh_batch(binp, 'node-by-id', payloads, per_item_timeout=40)
     nid = 0
     nabs = 0
+    ndup = 0
+    nduprep = 0
+    nforb = 0
     for k, o in zip(idx, nouts):
         try:
             r = json.loads(o)
@@ -177,11 +232,20 @@ def run(ctx):
             continue
         nid += r['ids']
         nabs += r['absent']
+        nforb += r.get('forbidden', 0)
         ctx.note_case("nbi/%s/%d" % (docs[k][1], r['ids']), nontrivial=r['ids'] > 0)
         for b in r['bad'][:2]:
             ctx.violation("node_by_id(%r) does not return the first renderable node carrying that id in %s: %s" % (b.get('id'), docs[k][1], json.dumps(b)),
                           dict(op='node-by-id', doc=docs[k][0], opts=docs[k][2], mismatch=b))
-    ctx.cov['node_by_id'] = dict(ids=nid, absent_ids=nabs)
+        # ids must be unique among the renderable nodes when they are unique in the source
+        direct, indirect = srcinfo.get(k, ({}, {}))
+        for dup in r.get('dups', []):
+            ndup += 1
+            if direct.get(dup, 0) + indirect.get(dup, 0) <= 1 and (direct or indirect) and nduprep < 3:
+                nduprep += 1
+                ctx.violation("the id %r occurs once in %s but more than one renderable node of the tree carries it (node_by_id can only return one of them)"
+                              % (dup, docs[k][1]), dict(op='node-by-id', doc=docs[k][0], opts=docs[k][2], mismatch=dict(id=dup, duplicate=True)))
+    ctx.cov['node_by_id'] = dict(ids=nid, absent_ids=nabs, not_rendered_ids=nforb, duplicated_ids_seen=ndup)
 
     ctx.log('node-by-id done')
     # ------------------------------------------------------------------ K export-ts
@@ -311,11 +375,11 @@ def run(ctx):
         rp = dict(op='export-pair', doc=d, opts=opts, id=n['id'], scale=s, single_doc=sdoc, result=r, node=n)
         if r.get('no_layer_box'):
             stats['none'] += 1
-            x, y, w, h = r['abs_bbox']
+            x, y, w, h = r['abs_sbbox']
             ctx.note_case("none/%s/%s" % (name, n['id']))
             if not r['none'] or (w > 0 and h > 0) or r['kind'] == 'g':
-                ctx.violation("render_node / abs_layer_bounding_box: 'nothing to render' for %s %r of %s whose absolute box is %s"
-                              % (r['kind'], n['id'], name, r['abs_bbox']), rp)
+                ctx.violation("render_node / abs_layer_bounding_box: 'nothing to render' for %s %r of %s whose absolute stroke box is %s"
+                              % (r['kind'], n['id'], name, r['abs_sbbox']), rp)
             continue
         if 'ndiff' not in r:
             if 'crash' in r or 'panic' in r or 'error' in r:
